@@ -602,6 +602,31 @@ def _dynamic(case, v, log, stats):
       (type(e).__name__, probes.scrub(str(e))[:300]))
     return
   log.add('dynS', S)
+  # The recorded imports are a set: its iteration order is not defined (it
+  # changes with PYTHONHASHSEED). Whatever order it is iterated in, the text
+  # must be the same.
+  real_imports = world.config._IMPORTS  # pylint: disable=protected-access
+  if isinstance(real_imports, set):
+    for label, rev in (('ascending', False), ('descending', True)):
+      class _OrderedView(set):
+        _rev = rev
+
+        def __iter__(self):
+          return iter(sorted(set.__iter__(self), key=repr, reverse=self._rev))
+      world.config._IMPORTS = _OrderedView(real_imports)  # pylint: disable=protected-access
+      try:
+        S_perm = gin.config_str(max_line_length=case['width'],
+                                continuation_indent=case['indent'])
+      except Exception as e:  # pylint: disable=broad-except
+        S_perm = 'EXC %r' % e
+      finally:
+        world.config._IMPORTS = real_imports  # pylint: disable=protected-access
+      if S_perm != S:
+        v('C06.order_independent', ['dynamic', 'set-iteration-order'],
+          'config_str() depends on the iteration order of the set of recorded '
+          'imports (which varies with PYTHONHASHSEED):\n%s\n--- iterated %s\n%s'
+          % (S, label, S_perm))
+        break
   world.reset()
   try:
     gin.parse_config(S)
